@@ -178,3 +178,82 @@ def twin_generated_clash_two_payloads(op: int, s0: int, s1: int, nframes: int) -
     with NoTracing():
         rec, out, err = drive("snake", oi, states, nf)
     return not (not err and OPS[oi][0] == "Clash" and nf == 2 and len(out) == 2 and states == [2, 2])
+
+
+# ---- the real library: handshake against a websockets server on the loopback interface ----------------------------------
+def real_handshake(variant: int, with_headers: bool):
+    """-> (status, detail): run execute_ws of the real base client against a real websockets server (installed version) that
+    speaks graphql-transport-ws: ack, one next, complete.  status: ok | failed | no_loopback"""
+    import asyncio
+    import json
+
+    try:
+        import websockets
+    except Exception as e:  # noqa: BLE001
+        return "failed", f"websockets not importable: {e}"
+    if variant == 0:
+        from ariadne_codegen.client_generators.dependencies.async_base_client import AsyncBaseClient as C
+    else:
+        from ariadne_codegen.client_generators.dependencies.async_base_client_open_telemetry import AsyncBaseClientOpenTelemetry as C
+    seen = {}
+
+    async def handler(ws):
+        seen["subprotocol"] = ws.subprotocol
+        seen["headers"] = {k.lower(): v for k, v in ws.request.headers.items()} if getattr(ws, "request", None) is not None else {}
+        init = json.loads(await ws.recv())
+        seen["init"] = init
+        await ws.send(json.dumps({"type": "connection_ack"}))
+        sub = json.loads(await ws.recv())
+        seen["subscribe"] = sub
+        await ws.send(json.dumps({"type": "next", "id": sub["id"], "payload": {"data": {"a": 1}}}))
+        await ws.send(json.dumps({"type": "complete", "id": sub["id"]}))
+
+    async def main():
+        try:
+            server = await websockets.serve(handler, "127.0.0.1", 0, subprotocols=["graphql-transport-ws"])
+        except OSError as e:
+            return "no_loopback", str(e)
+        try:
+            port = server.sockets[0].getsockname()[1]
+            kw = {"ws_headers": {"X-Conf": "1"}} if with_headers else {}
+            c = C(url="http://x", ws_url=f"ws://127.0.0.1:{port}", **kw)
+            out = []
+            try:
+                async for d in c.execute_ws("subscription S { a }", "S"):
+                    out.append(d)
+            except Exception as e:  # noqa: BLE001
+                return "failed", f"{type(e).__name__}: {str(e)[:160]}"
+            if out != [{"a": 1}]:
+                return "failed", f"yielded {out}"
+            if seen.get("subprotocol") != "graphql-transport-ws" or (seen.get("init") or {}).get("type") != "connection_init":
+                return "failed", f"server saw {seen}"
+            if with_headers and seen.get("headers", {}).get("x-conf") != "1":
+                return "failed", f"configured header not received: {seen.get('headers')}"
+            return "ok", ""
+        finally:
+            server.close()
+            await server.wait_closed()
+
+    return asyncio.run(asyncio.wait_for(main(), 20))
+
+
+def check_real_server_handshake(variant: int, with_headers: bool) -> bool:
+    """
+    post: _
+    """
+    v = pick(variant, 2)
+    wh = True if with_headers else False
+    with NoTracing():
+        with opened_auditwall():
+            try:
+                status, detail = real_handshake(v, wh)
+            except Exception as e:  # noqa: BLE001
+                status, detail = "failed", f"{type(e).__name__}: {e}"
+        if status in ("ok", "no_loopback"):
+            return True
+        listed = "unexpected keyword argument 'extra_headers'" in detail
+    if listed:
+        from harness._h import known
+
+        return known("C13-ws-connect-extra-headers-rejected")
+    return False
